@@ -84,7 +84,7 @@ def config_strategy() -> Any:
             dens = 0.15 if faults == "light" else 0.4
             for i in range(1, 400):  # keyed by the ordinal of the schema-relevant request transmission (0005 / 000C)
                 if draw(st.integers(0, 99)) < dens * 100:
-                    mask[str(i)] = draw(st.sampled_from(("lose-req", "lose-rp")))
+                    mask[str(i)] = draw(st.sampled_from(("lose-req", "lose-rp", "lose-air")))
         pauses = []
         if faults != "none" and draw(st.booleans()):  # flow control: the transport pauses the protocol's writing for a while
             pauses = [[draw(st.sampled_from((0.02, 0.3, 1.0, 3.5, 8.0, 31.0))), draw(st.sampled_from((0.2, 1.0, 5.0)))] for _ in range(draw(st.integers(1, 3)))]
@@ -111,6 +111,20 @@ class Controller:
         self.answered: set[str] = set()
         self.rq_log: list[tuple[float, str]] = []
         eth.listeners.append(self.on_frame)
+        eth.lose = self._lost_on_air
+
+    def _lost_on_air(self, frame: str, origin: Any) -> bool:
+        """'lose-air': a transmission of a schema request that nobody hears - neither the controller nor the gateway itself (no echo)."""
+        if origin is None or frame[:2] != "RQ" or frame[17:26] != CTL or frame[37:41] not in ("0005", "000C"):
+            return False
+        if not (self.faults_on and self.loop.time() < (12 if self.case["faults"] == "light" else 36) * 3600):
+            return False
+        if self.case["mask"].get(str(self.n_schema_tx + 1), "ok") != "lose-air":
+            return False
+        self.n_schema_tx += 1
+        self.t_last_schema_rq = self.loop.time()
+        self.n_lost += 1
+        return True
 
     # -- periodic announcements (a controller's sync cycle) --
     def start_cycle(self, period: float = 185.0) -> None:
